@@ -56,6 +56,23 @@ def identLike (k : Key) : Bool :=
 /-- printable ASCII without quote characters and backslash -/
 def plainChar (c : Nat) : Bool := 32 ≤ c && c ≤ 126 && c ≠ 39 && c ≠ 34 && c ≠ 92 && c ≠ 96 && c ≠ 36
 
+/-- a character inside a '…' literal, when one of the escapes known to be read correctly covers it
+(`\xNN`, `\uNNNN` are avoided: C12) -/
+def litChar (c : Nat) : Option String :=
+  if c = 39 then some "\\'"
+  else if c = 92 then some "\\\\"
+  else if c = 10 then some "\\n"
+  else if c = 13 then some "\\r"
+  else if c = 9 then some "\\t"
+  else if 32 ≤ c && c ≤ 126 then some (String.singleton (Char.ofNat c))
+  else if [0xE9, 0xDF, 0xFF, 0x4E2D, 0x3042, 0x1F600, 0x1D11E].contains c then some (String.singleton (Char.ofNat c))
+  else none
+
+def strLit (cs : Key) : Option String :=
+  cs.foldl (fun acc c => match acc, litChar c with
+    | some a, some x => some (a ++ x)
+    | _, _ => none) (some "")
+
 def srcName (k : Key) : String :=
   if identLike k || k = kAt || k = kChar || k = kByte || k = kItem || k = kValue then nameOf k
   else "'" ++ nameOf k ++ "'"
@@ -87,7 +104,9 @@ def R.src : R → String
   | .empty => "{}"
   | .tt => "true"
   | .str o cs =>
-    if cs.all plainChar && !cs.isEmpty && o ≥ 0 then offPrefix o ++ "'" ++ nameOf cs ++ "'" else srcChars o cs
+    match strLit cs with
+    | some lit => if !cs.isEmpty && o ≥ 0 then offPrefix o ++ "'" ++ lit ++ "'" else srcChars o cs
+    | none => srcChars o cs
   | .bytes o bs => srcBytes o bs
   | .arr o xs => offPrefix o ++ "[" ++ ", ".intercalate (R.srcList xs) ++ "]"
   | .dict es => "{" ++ ", ".intercalate (R.srcEntries es) ++ "}"
